@@ -72,6 +72,15 @@ pub fn check(tier: Tier) -> Check {
             tier.pick(15, 300),
         ));
     }
+    // the first connection ends by the user's DISCONNECT, the server's, or a read error
+    for end in ["disconnect", "server", "error"] {
+        parts.push(Part::new(
+            "C17/resume",
+            json!({"depth": tier.pick(4, 6), "expiry": 1000, "secs_ago": 10, "end": end}),
+            0,
+            tier.pick(15, 300),
+        ));
+    }
     // identifier flavour: the counters start next to a boundary of their encodings (DESIGN 4)
     for ids in [[65534u64, 1u64], [255, 127]] {
         parts.push(Part::new(
@@ -176,9 +185,15 @@ pub fn scenario_for(prop: &'static str, name: &str, params: &Value) -> Scenario 
             let i = chz.choose(e.len());
             sys.apply(e[i].clone());
         }
-        // connection loss
+        // connection loss - or (params.end) the user's DISCONNECT / the server's graceful one: the
+        // session survives those just the same, and unfinished handshakes are re-sent on a resume
         if !sys.dead {
-            sys.apply(Ev::Eof);
+            match params["end"].as_str().unwrap_or("eof") {
+                "disconnect" => sys.apply(Ev::Start(OpSpec::Disconnect(DisconnectSpec::default()))),
+                "server" => sys.apply(Ev::Deliver(SPacket::Disconnect { reason: 0, props: vec![], form: 1 })),
+                "error" => sys.apply(Ev::ReadErr),
+                _ => sys.apply(Ev::Eof),
+            }
         }
         if !sys.dead {
             let expired = expiry == 0 || (expiry != u32::MAX && secs_ago >= expiry as u64);
